@@ -204,7 +204,7 @@ func VerifDownstreamAnswers() {
 // VerifUploadAnswers: the same obligations for a request that carries a file (it travels alone, as
 // multipart/form-data, and is answered with one object instead of an array)
 func VerifUploadAnswers() {
-	kind := verifChoice("answer", 7)
+	kind := verifChoice("answer", 8)
 	status := verifInt("status", 100, 599)
 	signal := status < 200 || status > 299
 	body := ""
@@ -224,7 +224,13 @@ func VerifUploadAnswers() {
 	case 6:
 		body, signal = `<html>502</html>`, true
 	}
+	if kind == 7 {
+		signal = true // the connection drops after the service has read the request
+	}
 	v9Upload = func(req *http.Request) (*http.Response, error) {
+		if kind == 7 {
+			return nil, errors.New("connection reset by peer")
+		}
 		return &http.Response{StatusCode: status, Body: &vBody{[]byte(body)}}, nil
 	}
 	q := &MultiOpQueryer{url: "u", client: &http.Client{Transport: vNativeTransport{verifDo}}, maxBatchSize: 10}
@@ -245,8 +251,15 @@ func VerifUploadAnswers() {
 
 var v9Upload func(req *http.Request) (*http.Response, error)
 
+var v9UploadCalls int
+
 func verifDoUpload(req *http.Request) (*http.Response, error) {
-	verifAssert(verifRequestMultipart(req) != nil, "a request with a file is sent as multipart/form-data")
+	if verifRequestMultipart(req) == nil {
+		// the request with the file came (again) as a plain JSON batch
+		verifAssert(false, "a request with a file travels in exactly one HTTP call, as multipart/form-data, whatever the answer")
+	}
+	v9UploadCalls++
+	verifAssert(v9UploadCalls == 1, "a request with a file travels in exactly one HTTP call, whatever the answer")
 	return v9Upload(req)
 }
 
